@@ -22,13 +22,14 @@ struct Sub {
     Sub() { memset(this, 0, sizeof *this); }
     static const rtosc::Ports ports;
 };
+struct Sub2 { int a_rather_long_parameter_name; int x; Sub2() : a_rather_long_parameter_name(0), x(0) {} static const rtosc::Ports ports; };
 struct App {
     char pc; int pi; int pi_nb; int pi_neg; int pi_frac;
     float pf; float pf_log; float pf_nb; float pf_unit;
     bool pt; int po; int po_b; Opt4 po_e; int po_gap; int po_ooo; int pi7; float af24[24]; bool at12[12]; int ao11[11]; float pf_sp; int pi_sp; int po_sp;
     char ps[16]; char ps4[4];
     float af[4]; int ai[5]; bool at[3]; int ao[3];
-    Sub sub; Sub subs[3]; Sub *psub; Sub subs12[12];
+    Sub sub; Sub subs[3]; Sub *psub; Sub subs12[12]; Sub2 sub2s[12];
     Sub psub_store;
     App() { memset((void *)this, 0, sizeof *this); psub = &psub_store; pi_neg = -20; pf_log = 1.0f; }   // every field starts inside its declared range
     static const rtosc::Ports ports;
@@ -41,6 +42,12 @@ inline const rtosc::Ports Sub::ports = {
     rToggle(st, "sub toggle"),
     rParam(sc, "sub char"),
     rArrayF(saf, 2, rLinear(-2, 2), "sub float array"),
+};
+#undef rObject
+#define rObject Sub2
+inline const rtosc::Ports Sub2::ports = {
+    rParamI(a_rather_long_parameter_name, rLinear(-9, 9), "long name, table without enumerations"),
+    rParamI(x, rLinear(-9, 9), "short name"),
 };
 #undef rObject
 #define rObject App
@@ -65,6 +72,7 @@ inline const rtosc::Ports App::ports = {
     rArrayT(at12, 12, "toggle array with two-digit indices"),
     rArrayOption(ao11, 11, rOptions(xx, yy, zz), rLinear(0, 2), "option array with two-digit indices"),
     rRecurs(subs12, 12, "sub tree array with two-digit indices"),
+    rRecurs(sub2s, 12, "sub trees whose table has no enumeration"),
     rParamF(pf_sp, rSpecial(disabled), rShort("sp"), rCentered, rLinear(-3, 3), "float param whose range follows other metadata"),
     rParamI(pi_sp, rSpecial(random), rLinear(-7, 7), rShort("isp"), "int param whose range follows a valueless-looking entry"),
     rOption(po_sp, rSpecial(none), rOptions(alpha, beta, gamma), rLinear(0, 2), "option whose map follows other metadata"),
@@ -152,6 +160,8 @@ inline const std::vector<Leaf> &leaves() {
     for (int i = 0; i < 12; i++) L.push_back({"/at12" + std::to_string(i), K_TOGGLE, false, false, "", "", {}, 0, [i](App &a) { return vb(a.at12[i]); }});
     for (int i = 0; i < 11; i++) L.push_back({"/ao11" + std::to_string(i), K_OPTION, true, true, "0", "2", o3, 0, [i](App &a) { return vi(a.ao11[i]); }});
     for (int i = 0; i < 12; i++) add_sub_leaves(L, "/subs12" + std::to_string(i) + "/", [i](App &a) { return &a.subs12[i]; });
+    for (int i = 0; i < 12; i++) { L.push_back({"/sub2s" + std::to_string(i) + "/a_rather_long_parameter_name", K_PARAM_I, true, true, "-9", "9", {}, 0, [i](App &a) { return vi(a.sub2s[i].a_rather_long_parameter_name); }});
+                                   L.push_back({"/sub2s" + std::to_string(i) + "/x", K_PARAM_I, true, true, "-9", "9", {}, 0, [i](App &a) { return vi(a.sub2s[i].x); }}); }
     L.push_back({"/pf_sp", K_PARAM_F, true, true, "-3", "3", {}, 0, [](App &a) { return vf(a.pf_sp); }});
     L.push_back({"/pi_sp", K_PARAM_I, true, true, "-7", "7", {}, 0, [](App &a) { return vi(a.pi_sp); }});
     L.push_back({"/po_sp", K_OPTION, true, true, "0", "2", {"alpha", "beta", "gamma"}, 0, [](App &a) { return vi(a.po_sp); }});
@@ -169,7 +179,7 @@ struct Rec : rtosc::RtData {
 };
 
 // ------------------------------------------------------------------ the node
-struct Incoming { int leaf; bool query; char tag; Val v; };   // tag: wire type tag used for the set ('c','i','f','T','F','S','s')
+struct Incoming { int leaf; bool query; char tag; Val v; std::string sent_addr; bool expect_no_match = false; };   // sent_addr: the address as spelled in the message (e.g. an index with leading zeros); expect_no_match: the address names no element   // tag: wire type tag used for the set ('c','i','f','T','F','S','s')
 
 struct UndoEvent { std::string addr; Val oldv, newv; std::vector<char> raw; };
 
@@ -181,7 +191,8 @@ struct Node {
     bool check = true;
     Node() { auto &L = leaves(); for (auto &l : L) model.push_back(l.get(obj)); }
 
-    static size_t build(char *buf, size_t cap, const Leaf &l, const Incoming &in) {
+    static size_t build(char *buf, size_t cap, const Leaf &l0, const Incoming &in) {
+        struct { std::string addr; } l{in.sent_addr.empty() ? l0.addr : in.sent_addr};
         if (in.query) return rtosc_message(buf, cap, l.addr.c_str(), "");
         switch (in.tag) {
         case 'c': return rtosc_message(buf, cap, l.addr.c_str(), "c", in.v.i);
@@ -220,8 +231,15 @@ struct Node {
     void set_fail(const char *clause, const std::string &d) { if (fail.empty()) { fail_clause = clause; fail = d; } }
 
     // deliver one message (already encoded) to the port tree and compare with the model
-    void deliver(const Leaf &l, int leaf_idx, const Incoming &in, const char *msg) {
+    void deliver(const Leaf &l0, int leaf_idx, const Incoming &in, const char *msg) {
         auto &L = leaves();
+        if (in.expect_no_match) {   // the address names no element of the array: nothing may happen
+            Rec &d = rec; d.out.clear(); d.obj = &obj; d.matches = 0; undo_events.clear(); App::ports.dispatch(msg, d, true); dispatches++;
+            if (!check) { for (size_t i = 0; i < L.size(); i++) model[i] = L[i].get(obj); return; }
+            char b[300]; for (size_t i = 0; i < L.size(); i++) { Val real = L[i].get(obj); if (!(real == model[i])) { snprintf(b, sizeof b, "%s names no element of its array, yet field %s changed from %s to %s", msg, L[i].addr.c_str(), model[i].str().c_str(), real.str().c_str()); set_fail("OTHER-ELEMENT", b); model[i] = real; } }
+            if (!d.out.empty()) { snprintf(b, sizeof b, "%s names no element of its array, yet %zu message(s) were emitted, first to %s", msg, d.out.size(), d.out[0].msg.data()); set_fail("BROADCAST", b); }
+            return; }
+        Leaf l = l0; if (!in.sent_addr.empty()) l.addr = in.sent_addr;   // replies, broadcasts and undo events carry the address as it was sent
         Rec &d = rec; d.out.clear(); d.obj = &obj; d.matches = 0; undo_events.clear();   // one RtData for the node's lifetime, as applications do
         App::ports.dispatch(msg, d, true);
         dispatches++;
